@@ -17,12 +17,19 @@ level rejects the single faults it owns).
  * §8  ridge links: `linkGraphOk_iff` (= `LinkGraphSpec`: path-connected, degree ≤ 2, 0 or 2
        degree-1 vertices), `ridgeLinksOk_iff`, `reject_ridge_link_*`; star / bow-tie examples.
        (helpers for §7/§8: Lemmas/ReachAux.lean, Lemmas/LinkAux.lean, core-only as well)
+ * §9  vertex links: `mem_vertexLink_iff`, `vertexLinkOk_D1_iff`, `vertexLinkOk_D2_iff`
+       (= `LinkGraphSpec` of the link edges with 0 / 2 degree-1 vertices), for `D ≥ 3`
+       `linkSkeletonConnected_iff`, `linkFacetsOk_iff` (= `LinkFacetsSpec`), `vertexLinkOk_ge3_iff`
+       (`surfaceChi` / `surfaceBoundaryComponents` kept executable), `vertexLinksOk_iff`,
+       `reject_isolated_vertex_links`, `checkL3_false_of_vertexLinks`; fan / bow-tie / subdivided
+       tetrahedron / pinched examples.  (helpers: Lemmas/VertexLinkAux.lean, core-only)
 
 Helper lemmas live in Lemmas/CxAux.lean.  Everything here is core-only.
 -/
 import DelaunayModel.Lemmas.CxAux
 import DelaunayModel.Lemmas.ReachAux
 import DelaunayModel.Lemmas.LinkAux
+import DelaunayModel.Lemmas.VertexLinkAux
 namespace DM.C05
 
 open DM
@@ -884,5 +891,448 @@ theorem bowTie_link_disconnected :
       GReach (ridgeLinkEdges bowTie [0]) u v := by
   rw [← graphConnected_iff, bowTie_link]
   decide
+
+/-! ## §9 Level 3: vertex links (`vertexLinkOk`, `vertexLinksOk`) -/
+
+/-- the link of `v` has one simplex per stored cell containing `v`: the cell's vertex slots
+without `v` (slot order kept) -/
+theorem mem_vertexLink_iff (K : Cx) (v : Nat) (s : List Nat) :
+    s ∈ vertexLink K v ↔ ∃ c ∈ K.cells, v ∈ c.vs ∧ s = c.vs.filter (· != v) :=
+  mem_vertexLink K v s
+
+theorem vertexLink_eq_nil_iff (K : Cx) (v : Nat) :
+    vertexLink K v = [] ↔ ∀ c ∈ K.cells, v ∉ c.vs :=
+  vertexLink_eq_nil K v
+
+theorem vertexLink_isEmpty_iff (K : Cx) (v : Nat) :
+    (vertexLink K v).isEmpty = true ↔ ∀ c ∈ K.cells, v ∉ c.vs := by
+  rw [List.isEmpty_iff]
+  exact vertexLink_eq_nil K v
+
+/-- a vertex in no cell fails the vertex-link check (in every dimension) -/
+theorem vertexLinkOk_false_of_isolated (K : Cx) (v : Nat) (h : ∀ c ∈ K.cells, v ∉ c.vs) :
+    vertexLinkOk K v = false := by
+  rw [vertexLinkOk_eq, if_pos ((vertexLink_isEmpty_iff K v).2 h)]
+
+/-- boundary vertices: the entries of the facet keys carried by exactly one (cell, slot) -/
+theorem mem_boundaryVerts_iff (K : Cx) (v : Nat) :
+    v ∈ boundaryVerts K ↔ ∃ k ∈ boundaryFacets K, v ∈ k :=
+  mem_boundaryVerts K v
+
+/-- `linkVerts link`: the distinct vertices of the link simplices -/
+theorem linkVerts_spec (link : List (List Nat)) :
+    (linkVerts link).Nodup ∧ ∀ x, x ∈ linkVerts link ↔ ∃ s ∈ link, x ∈ s :=
+  ⟨linkVerts_nodup link, mem_linkVerts link⟩
+
+theorem interior_iff (K : Cx) (v : Nat) :
+    (!(boundaryVerts K).contains v) = true ↔ v ∉ boundaryVerts K := by
+  rw [Bool.not_eq_true', ← Bool.not_eq_true, List.contains_iff_mem]
+
+theorem vertexLink_isEmpty_false (K : Cx) (v : Nat) (h : vertexLink K v ≠ []) :
+    (vertexLink K v).isEmpty = false := by
+  rw [← Bool.not_eq_true, List.isEmpty_iff]
+  exact h
+
+/-- `D = 1`: the link is a set of points; an interior vertex has exactly 2 distinct neighbours, a
+boundary vertex exactly 1 (a non-empty link is implied) -/
+theorem vertexLinkOk_D1_iff (K : Cx) (v : Nat) (hD : K.D = 1) :
+    vertexLinkOk K v = true ↔
+      (linkVerts (vertexLink K v)).length = if v ∈ boundaryVerts K then 1 else 2 := by
+  rw [vertexLinkOk_eq]
+  by_cases hemp : vertexLink K v = []
+  · rw [hemp]
+    simp only [List.isEmpty_nil, if_true, Bool.false_eq_true, false_iff]
+    show ¬ (0 = if v ∈ boundaryVerts K then 1 else 2)
+    split <;> omega
+  · rw [vertexLink_isEmpty_false K v hemp]
+    have h1 : (K.D == 1) = true := by rw [hD]; rfl
+    simp only [Bool.false_eq_true, if_false, h1, if_true]
+    by_cases hb : v ∈ boundaryVerts K
+    · have : (!(boundaryVerts K).contains v) = false := by
+        rw [← Bool.not_eq_true, interior_iff]; exact fun h => h hb
+      simp only [this, hb, Bool.false_eq_true, if_false, if_true, beq_iff_eq]
+    · have : (!(boundaryVerts K).contains v) = true := (interior_iff K v).2 hb
+      simp only [this, hb, if_false, if_true, beq_iff_eq]
+
+/-- `linkEdges2 link`: one pair per link simplex with exactly two vertices -/
+theorem mem_linkEdges2_iff (link : List (List Nat)) (a b : Nat) :
+    (a, b) ∈ linkEdges2 link ↔ [a, b] ∈ link :=
+  mem_linkEdges2 link a b
+
+/-- `D = 2`: the link is a graph; it must be non-empty, consist of edges, and be a single cycle
+(interior vertex: no degree-1 vertex) or a single path (boundary vertex: two degree-1 vertices) -/
+theorem vertexLinkOk_D2_iff (K : Cx) (v : Nat) (hD : K.D = 2) :
+    vertexLinkOk K v = true ↔
+      vertexLink K v ≠ [] ∧ (∀ s ∈ vertexLink K v, s.length = 2) ∧
+      LinkGraphSpec (linkEdges2 (vertexLink K v)) (some (if v ∈ boundaryVerts K then 2 else 0)) := by
+  rw [vertexLinkOk_eq]
+  by_cases hemp : vertexLink K v = []
+  · rw [hemp]
+    simp
+  · rw [vertexLink_isEmpty_false K v hemp]
+    have h1 : (K.D == 1) = false := by rw [hD]; rfl
+    have h2 : (K.D == 2) = true := by rw [hD]; rfl
+    have hk : (if !(boundaryVerts K).contains v then 0 else 2) =
+        (if v ∈ boundaryVerts K then 2 else 0) := by
+      by_cases hb : v ∈ boundaryVerts K
+      · have : (!(boundaryVerts K).contains v) = false := by
+          rw [← Bool.not_eq_true, interior_iff]; exact fun h => h hb
+        simp only [this, hb, Bool.false_eq_true, if_false, if_true]
+      · have : (!(boundaryVerts K).contains v) = true := (interior_iff K v).2 hb
+        simp only [this, hb, if_false, if_true]
+    simp only [Bool.false_eq_true, if_false, h1, h2, if_true, hk]
+    by_cases hall : (vertexLink K v).all (·.length == 2) = true
+    · have hall' : ∀ s ∈ vertexLink K v, s.length = 2 := by
+        simpa only [List.all_eq_true, beq_iff_eq] using hall
+      simp only [hall, Bool.not_true, Bool.false_eq_true, if_false, linkGraphOk_iff]
+      exact ⟨fun h => ⟨hemp, hall', h⟩, fun h => h.2.2⟩
+    · have hall' : ¬ ∀ s ∈ vertexLink K v, s.length = 2 := by
+        simpa only [List.all_eq_true, beq_iff_eq] using hall
+      rw [Bool.not_eq_true] at hall
+      simp only [hall, Bool.not_false, if_true, Bool.false_eq_true, false_iff]
+      exact fun h => hall' h.2.1
+
+/-! ### `D ≥ 3`: the three components -/
+
+/-- `linkSkeletonEdges link`: the pairs `(a, b)`, smaller entry first, inside a link simplex -/
+theorem mem_linkSkeletonEdges_iff (link : List (List Nat)) (a b : Nat) :
+    (a, b) ∈ linkSkeletonEdges link ↔ ∃ s ∈ link, [a, b].Sublist (sortNat s) :=
+  mem_linkSkeletonEdges link a b
+
+/-- two distinct vertices are adjacent in the 1-skeleton iff some link simplex contains both -/
+theorem adj_linkSkeletonEdges_iff (link : List (List Nat)) (a b : Nat) (hne : a ≠ b) :
+    Adj (linkSkeletonEdges link) a b ↔ ∃ s ∈ link, a ∈ s ∧ b ∈ s :=
+  adj_linkSkeletonEdges link a b hne
+
+/-- (a) the 1-skeleton of the link is connected: any two link vertices are joined by a path of
+skeleton edges (a link vertex on no edge is only joined to itself) -/
+theorem linkSkeletonConnected_iff (link : List (List Nat)) :
+    linkSkeletonConnected link = true ↔
+      ∀ u w, (∃ s ∈ link, u ∈ s) → (∃ s ∈ link, w ∈ s) → GReach (linkSkeletonEdges link) u w := by
+  rw [linkSkeletonConnected_spec]
+  simp only [mem_linkVerts]
+
+/-- what `linkFacetsOk D link interior` checks, over the explicit lists
+`linkFacets link` (each sorted link simplex minus one entry, with repetitions),
+`linkBoundaryFacets link` (the distinct facets occurring exactly once) and
+`linkBoundaryRidges link` (each boundary facet minus one entry, with repetitions) -/
+structure LinkFacetsSpec (D : Nat) (link : List (List Nat)) (interior : Prop) : Prop where
+  /-- every link simplex has `D` vertices -/
+  size : ∀ s ∈ link, s.length = D
+  /-- every facet of the link lies in 1 or 2 link simplices -/
+  deg : ∀ f ∈ linkFacets link, (linkFacets link).count f = 1 ∨ (linkFacets link).count f = 2
+  /-- the link of an interior vertex has no boundary facet -/
+  interior_closed : interior → ∀ f ∈ linkFacets link, (linkFacets link).count f ≠ 1
+  /-- the boundary of the link is closed: every ridge of the boundary facets lies in exactly 2 -/
+  boundary_closed : ∀ r ∈ linkBoundaryRidges link, (linkBoundaryRidges link).count r = 2
+
+theorem mem_linkFacets_iff (link : List (List Nat)) (f : List Nat) :
+    f ∈ linkFacets link ↔ ∃ s ∈ link, ∃ i, i < s.length ∧ f = (sortNat s).eraseIdx i :=
+  mem_linkFacets link f
+
+theorem linkBoundaryFacets_spec (link : List (List Nat)) :
+    (linkBoundaryFacets link).Nodup ∧
+      ∀ f, f ∈ linkBoundaryFacets link ↔ f ∈ linkFacets link ∧ (linkFacets link).count f = 1 :=
+  ⟨linkBoundaryFacets_nodup link, mem_linkBoundaryFacets link⟩
+
+theorem mem_linkBoundaryRidges_iff (link : List (List Nat)) (r : List Nat) :
+    r ∈ linkBoundaryRidges link ↔
+      ∃ f ∈ linkBoundaryFacets link, ∃ i, i < f.length ∧ r = f.eraseIdx i :=
+  mem_linkBoundaryRidges link r
+
+/-- (b) `linkFacetsOk` = `LinkFacetsSpec` -/
+theorem linkFacetsOk_iff (D : Nat) (link : List (List Nat)) (interior : Bool) :
+    linkFacetsOk D link interior = true ↔ LinkFacetsSpec D link (interior = true) := by
+  rw [linkFacetsOk_eq]
+  by_cases hsz : link.all (·.length == D) = true
+  · have hsz' : ∀ s ∈ link, s.length = D := by
+      simpa only [List.all_eq_true, beq_iff_eq] using hsz
+    by_cases hdeg : (linkFacets link).all (fun f =>
+        (linkFacets link).count f == 1 || (linkFacets link).count f == 2) = true
+    · have hdeg' : ∀ f ∈ linkFacets link,
+          (linkFacets link).count f = 1 ∨ (linkFacets link).count f = 2 := by
+        simpa only [List.all_eq_true, Bool.or_eq_true, beq_iff_eq] using hdeg
+      by_cases hint : (interior && !(linkBoundaryFacets link).isEmpty) = true
+      · rw [Bool.and_eq_true, Bool.not_eq_true', ← Bool.not_eq_true,
+          linkBoundaryFacets_isEmpty] at hint
+        have hc : (interior && !(linkBoundaryFacets link).isEmpty) = true := by
+          rw [Bool.and_eq_true, Bool.not_eq_true', ← Bool.not_eq_true,
+            linkBoundaryFacets_isEmpty]
+          exact hint
+        simp only [hsz, hdeg, hc, Bool.not_true, Bool.false_eq_true, if_false, if_true, false_iff]
+        exact fun h => hint.2 (h.interior_closed hint.1)
+      · have hint' : interior = true → ∀ f ∈ linkFacets link, (linkFacets link).count f ≠ 1 := by
+          intro hi
+          rw [← linkBoundaryFacets_isEmpty]
+          cases hbe : (linkBoundaryFacets link).isEmpty with
+          | true => rfl
+          | false => rw [hi, hbe] at hint; exact absurd rfl hint
+        rw [Bool.not_eq_true] at hint
+        simp only [hsz, hdeg, hint, Bool.not_true, Bool.false_eq_true, if_false, List.all_eq_true,
+          beq_iff_eq]
+        exact ⟨fun h => ⟨hsz', hdeg', hint', h⟩, fun h => h.boundary_closed⟩
+    · have hdeg' : ¬ ∀ f ∈ linkFacets link,
+          (linkFacets link).count f = 1 ∨ (linkFacets link).count f = 2 := by
+        simpa only [List.all_eq_true, Bool.or_eq_true, beq_iff_eq] using hdeg
+      rw [Bool.not_eq_true] at hdeg
+      simp only [hsz, hdeg, Bool.not_true, Bool.not_false, Bool.false_eq_true, if_false, if_true,
+        false_iff]
+      exact fun h => hdeg' h.deg
+  · have hsz' : ¬ ∀ s ∈ link, s.length = D := by
+      simpa only [List.all_eq_true, beq_iff_eq] using hsz
+    rw [Bool.not_eq_true] at hsz
+    simp only [hsz, Bool.not_false, if_true, Bool.false_eq_true, false_iff]
+    exact fun h => hsz' h.size
+
+theorem LinkFacetsSpec.congr {D : Nat} {link : List (List Nat)} {P Q : Prop} (h : P ↔ Q) :
+    LinkFacetsSpec D link P ↔ LinkFacetsSpec D link Q :=
+  ⟨fun s => ⟨s.size, s.deg, fun q => s.interior_closed (h.2 q), s.boundary_closed⟩,
+   fun s => ⟨s.size, s.deg, fun p => s.interior_closed (h.1 p), s.boundary_closed⟩⟩
+
+/-- (c) `D ≥ 3`: non-empty link, connected 1-skeleton, `LinkFacetsSpec`, and for `D = 3` the
+Euler characteristic and the number of boundary components of the link surface are those of a
+sphere (interior vertex: χ = 2, no boundary) or of a disc (boundary vertex: χ = 1, one boundary
+circle); `surfaceChi` and `surfaceBoundaryComponents` are kept as executable functions -/
+theorem vertexLinkOk_ge3_iff (K : Cx) (v : Nat) (hD : 3 ≤ K.D) :
+    vertexLinkOk K v = true ↔
+      vertexLink K v ≠ [] ∧
+      (∀ u w, (∃ s ∈ vertexLink K v, u ∈ s) → (∃ s ∈ vertexLink K v, w ∈ s) →
+        GReach (linkSkeletonEdges (vertexLink K v)) u w) ∧
+      LinkFacetsSpec K.D (vertexLink K v) (v ∉ boundaryVerts K) ∧
+      (K.D = 3 →
+        surfaceChi (vertexLink K v) = (if v ∈ boundaryVerts K then 1 else 2) ∧
+        surfaceBoundaryComponents (vertexLink K v) = (if v ∈ boundaryVerts K then 1 else 0)) := by
+  rw [vertexLinkOk_eq]
+  by_cases hemp : vertexLink K v = []
+  · rw [hemp]
+    simp
+  · rw [vertexLink_isEmpty_false K v hemp]
+    have h1 : (K.D == 1) = false := by
+      rw [← Bool.not_eq_true, beq_iff_eq]; omega
+    have h2 : (K.D == 2) = false := by
+      rw [← Bool.not_eq_true, beq_iff_eq]; omega
+    simp only [Bool.false_eq_true, if_false, h1, h2, Bool.and_eq_true, linkSkeletonConnected_iff,
+      linkFacetsOk_iff]
+    rw [LinkFacetsSpec.congr (interior_iff K v)]
+    refine ⟨fun h => ⟨hemp, h.1.1, h.1.2, ?_⟩, fun h => ⟨⟨h.2.1, h.2.2.1⟩, ?_⟩⟩
+    · intro h3
+      have h3' : (K.D == 3) = true := by rw [h3]; rfl
+      have := h.2
+      rw [if_pos h3'] at this
+      by_cases hb : v ∈ boundaryVerts K
+      · have hi : (!(boundaryVerts K).contains v) = false := by
+          rw [← Bool.not_eq_true, interior_iff]; exact fun h => h hb
+        rw [hi] at this
+        simpa only [hb, if_true, Bool.false_eq_true, if_false, Bool.and_eq_true, beq_iff_eq]
+          using this
+      · have hi : (!(boundaryVerts K).contains v) = true := (interior_iff K v).2 hb
+        rw [hi] at this
+        simpa only [hb, if_true, if_false, Bool.and_eq_true, beq_iff_eq] using this
+    · by_cases h3 : K.D = 3
+      · have h3' : (K.D == 3) = true := by rw [h3]; rfl
+        have := h.2.2.2 h3
+        rw [if_pos h3']
+        by_cases hb : v ∈ boundaryVerts K
+        · have hi : (!(boundaryVerts K).contains v) = false := by
+            rw [← Bool.not_eq_true, interior_iff]; exact fun h => h hb
+          rw [hi]
+          simpa only [hb, if_true, Bool.false_eq_true, if_false, Bool.and_eq_true, beq_iff_eq]
+            using this
+        · have hi : (!(boundaryVerts K).contains v) = true := (interior_iff K v).2 hb
+          rw [hi]
+          simpa only [hb, if_true, if_false, Bool.and_eq_true, beq_iff_eq] using this
+      · have h3' : (K.D == 3) = false := by
+          rw [← Bool.not_eq_true, beq_iff_eq]; exact h3
+        rw [h3']
+        rfl
+
+/-- `D = 3` -/
+theorem vertexLinkOk_D3_iff (K : Cx) (v : Nat) (hD : K.D = 3) :
+    vertexLinkOk K v = true ↔
+      vertexLink K v ≠ [] ∧
+      (∀ u w, (∃ s ∈ vertexLink K v, u ∈ s) → (∃ s ∈ vertexLink K v, w ∈ s) →
+        GReach (linkSkeletonEdges (vertexLink K v)) u w) ∧
+      LinkFacetsSpec 3 (vertexLink K v) (v ∉ boundaryVerts K) ∧
+      surfaceChi (vertexLink K v) = (if v ∈ boundaryVerts K then 1 else 2) ∧
+      surfaceBoundaryComponents (vertexLink K v) = (if v ∈ boundaryVerts K then 1 else 0) := by
+  rw [vertexLinkOk_ge3_iff K v (by omega), hD]
+  exact ⟨fun h => ⟨h.1, h.2.1, h.2.2.1, h.2.2.2 rfl⟩, fun h => ⟨h.1, h.2.1, h.2.2.1, fun _ => h.2.2.2⟩⟩
+
+/-- `D ≥ 4` -/
+theorem vertexLinkOk_ge4_iff (K : Cx) (v : Nat) (hD : 4 ≤ K.D) :
+    vertexLinkOk K v = true ↔
+      vertexLink K v ≠ [] ∧
+      (∀ u w, (∃ s ∈ vertexLink K v, u ∈ s) → (∃ s ∈ vertexLink K v, w ∈ s) →
+        GReach (linkSkeletonEdges (vertexLink K v)) u w) ∧
+      LinkFacetsSpec K.D (vertexLink K v) (v ∉ boundaryVerts K) := by
+  rw [vertexLinkOk_ge3_iff K v (by omega)]
+  exact ⟨fun h => ⟨h.1, h.2.1, h.2.2.1⟩, fun h => ⟨h.1, h.2.1, h.2.2, fun h3 => by omega⟩⟩
+
+/-! ### the whole check -/
+
+theorem vertexLinksOk_iff (K : Cx) :
+    vertexLinksOk K = true ↔ (K.cells = [] ∨ ∀ v ∈ K.verts, vertexLinkOk K v.id = true) := by
+  unfold vertexLinksOk
+  by_cases hc : K.cells = []
+  · simp [hc]
+  · have hc' : K.cells.isEmpty = false := by
+      rw [← Bool.not_eq_true, List.isEmpty_iff]; exact hc
+    simp only [hc, hc', Bool.false_eq_true, if_false, false_or, List.all_eq_true]
+
+/-- a stored vertex that lies in no cell is rejected as soon as there is a cell -/
+theorem reject_isolated_vertex_links (K : Cx) (hne : K.cells ≠ []) (v : Vtx) (hv : v ∈ K.verts)
+    (h : ∀ c ∈ K.cells, v.id ∉ c.vs) : vertexLinksOk K = false := by
+  rw [← Bool.not_eq_true, vertexLinksOk_iff]
+  rintro (hc | hall)
+  · exact hne hc
+  · have := hall v hv
+    rw [vertexLinkOk_false_of_isolated K v.id h] at this
+    cases this
+
+/-- a failed vertex-link check fails Level 3 whenever that check runs: at guarantee ≥ 2
+(PLManifoldStrict) always, at guarantee ≥ 1 (PLManifold) at completion time -/
+theorem checkL3_false_of_vertexLinks (K : Cx) (g : Guarantee) (b : Bool)
+    (hg : g ≥ 2 ∨ (g ≥ 1 ∧ b = true)) (h : vertexLinksOk K = false) : checkL3 K g b = false := by
+  rw [← Bool.not_eq_true, checkL3_iff]
+  rintro ⟨_, _, _, _, hv, _⟩
+  rw [hv hg] at h
+  cases h
+
+/-! ### non-vacuity for §9 -/
+
+/-- stored vertices with the given ids (coordinates play no role in the vertex-link check) -/
+def vtxs (ids : List Nat) : List Vtx := ids.map (fun i => ⟨i, none, none⟩)
+
+/-- four triangles around the interior vertex `9` (a closed fan) -/
+def fanClosed : Cx :=
+  { D := 2, verts := vtxs [0, 1, 2, 3, 9],
+    cells := [⟨0, [9, 0, 1], none⟩, ⟨1, [9, 1, 2], none⟩, ⟨2, [9, 2, 3], none⟩,
+              ⟨3, [9, 3, 0], none⟩] }
+
+theorem fanClosed_link : vertexLink fanClosed 9 = [[0, 1], [1, 2], [2, 3], [3, 0]] := by decide
+theorem fanClosed_interior : 9 ∉ boundaryVerts fanClosed := by decide
+/-- the interior vertex `9` is accepted (its link is the cycle 0–1–2–3–0) … -/
+theorem fanClosed_centre_ok : vertexLinkOk fanClosed 9 = true := by decide
+/-- … and so are the four boundary vertices (each link is a path of two edges) -/
+theorem fanClosed_ok : vertexLinksOk fanClosed = true := by decide
+
+/-- so the right-hand side of `vertexLinkOk_D2_iff` is inhabited: the link edges of `9` form a
+connected graph of degree ≤ 2 without degree-1 vertices -/
+theorem fanClosed_link_spec :
+    LinkGraphSpec (linkEdges2 (vertexLink fanClosed 9)) (some 0) := by
+  have h := ((vertexLinkOk_D2_iff fanClosed 9 rfl).1 fanClosed_centre_ok).2.2
+  rwa [if_neg fanClosed_interior] at h
+
+/-- the same fan with the triangle `[9,3,0]` missing: `9` is now a boundary vertex -/
+def fanOpen : Cx :=
+  { D := 2, verts := vtxs [0, 1, 2, 3, 9],
+    cells := [⟨0, [9, 0, 1], none⟩, ⟨1, [9, 1, 2], none⟩, ⟨2, [9, 2, 3], none⟩] }
+
+theorem fanOpen_link : vertexLink fanOpen 9 = [[0, 1], [1, 2], [2, 3]] := by decide
+theorem fanOpen_boundary : 9 ∈ boundaryVerts fanOpen := by decide
+/-- accepted as a boundary vertex (its link is the path 0–1–2–3) -/
+theorem fanOpen_centre_ok : vertexLinkOk fanOpen 9 = true := by decide
+theorem fanOpen_ok : vertexLinksOk fanOpen = true := by decide
+
+theorem fanOpen_link_spec :
+    LinkGraphSpec (linkEdges2 (vertexLink fanOpen 9)) (some 2) := by
+  have h := ((vertexLinkOk_D2_iff fanOpen 9 rfl).1 fanOpen_centre_ok).2.2
+  rwa [if_pos fanOpen_boundary] at h
+
+/-- two closed fans (around `0,1,2` and around `3,4,5`) sharing only the vertex `9` -/
+def bowTie2 : Cx :=
+  { D := 2, verts := vtxs [0, 1, 2, 3, 4, 5, 9],
+    cells := [⟨0, [9, 0, 1], none⟩, ⟨1, [9, 1, 2], none⟩, ⟨2, [9, 2, 0], none⟩,
+              ⟨3, [9, 3, 4], none⟩, ⟨4, [9, 4, 5], none⟩, ⟨5, [9, 5, 3], none⟩] }
+
+theorem bowTie2_centre_rejected : vertexLinkOk bowTie2 9 = false := by decide
+theorem bowTie2_rejected : vertexLinksOk bowTie2 = false := by decide
+
+/-- … because the link of `9` (two disjoint triangles' boundaries) is not connected -/
+theorem bowTie2_link_disconnected :
+    ¬ ∀ u v, IsVert (linkEdges2 (vertexLink bowTie2 9)) u →
+      IsVert (linkEdges2 (vertexLink bowTie2 9)) v →
+      GReach (linkEdges2 (vertexLink bowTie2 9)) u v := by
+  rw [← graphConnected_iff]
+  decide
+
+/-- a tetrahedron `0123` subdivided from the interior point `9`: four tetrahedra -/
+def tetSub : Cx :=
+  { D := 3, verts := vtxs [0, 1, 2, 3, 9],
+    cells := [⟨0, [0, 1, 2, 9], none⟩, ⟨1, [0, 1, 3, 9], none⟩, ⟨2, [0, 2, 3, 9], none⟩,
+              ⟨3, [1, 2, 3, 9], none⟩] }
+
+/-- the link of `9` is the boundary of the tetrahedron `0123` -/
+theorem tetSub_link :
+    vertexLink tetSub 9 = [[0, 1, 2], [0, 1, 3], [0, 2, 3], [1, 2, 3]] := by decide
+theorem tetSub_interior : 9 ∉ boundaryVerts tetSub := by decide
+theorem tetSub_chi : surfaceChi (vertexLink tetSub 9) = 2 := by decide
+theorem tetSub_boundaryComponents : surfaceBoundaryComponents (vertexLink tetSub 9) = 0 := by
+  decide
+theorem tetSub_centre_ok : vertexLinkOk tetSub 9 = true := by decide
+/-- the four corners (boundary vertices whose link is a disc of three triangles) pass as well -/
+theorem tetSub_ok : vertexLinksOk tetSub = true := by decide
+
+/-- so the right-hand side of `vertexLinkOk_D3_iff` is inhabited -/
+theorem tetSub_link_spec :
+    (∀ u w, (∃ s ∈ vertexLink tetSub 9, u ∈ s) → (∃ s ∈ vertexLink tetSub 9, w ∈ s) →
+      GReach (linkSkeletonEdges (vertexLink tetSub 9)) u w) ∧
+    LinkFacetsSpec 3 (vertexLink tetSub 9) (9 ∉ boundaryVerts tetSub) := by
+  have h := (vertexLinkOk_D3_iff tetSub 9 rfl).1 tetSub_centre_ok
+  exact ⟨h.2.1, h.2.2.1⟩
+
+/-- two such subdivided tetrahedra glued only at the vertex `9` (a pinched vertex) -/
+def pinched : Cx :=
+  { D := 3, verts := vtxs [0, 1, 2, 3, 4, 5, 6, 7, 9],
+    cells := [⟨0, [0, 1, 2, 9], none⟩, ⟨1, [0, 1, 3, 9], none⟩, ⟨2, [0, 2, 3, 9], none⟩,
+              ⟨3, [1, 2, 3, 9], none⟩, ⟨4, [4, 5, 6, 9], none⟩, ⟨5, [4, 5, 7, 9], none⟩,
+              ⟨6, [4, 6, 7, 9], none⟩, ⟨7, [5, 6, 7, 9], none⟩] }
+
+theorem pinched_centre_rejected : vertexLinkOk pinched 9 = false := by decide
+theorem pinched_rejected : vertexLinksOk pinched = false := by decide
+
+/-- the facet conditions alone do not see the pinch (the link is two disjoint closed surfaces) … -/
+theorem pinched_facets_ok : linkFacetsOk 3 (vertexLink pinched 9) true = true := by decide
+/-- … the 1-skeleton test does (and so would χ = 4 ≠ 2) -/
+theorem pinched_skeleton_rejected : linkSkeletonConnected (vertexLink pinched 9) = false := by
+  decide
+theorem pinched_chi : surfaceChi (vertexLink pinched 9) = 4 := by decide
+
+theorem pinched_link_disconnected :
+    ¬ ∀ u w, (∃ s ∈ vertexLink pinched 9, u ∈ s) → (∃ s ∈ vertexLink pinched 9, w ∈ s) →
+      GReach (linkSkeletonEdges (vertexLink pinched 9)) u w := by
+  rw [← linkSkeletonConnected_iff, pinched_skeleton_rejected]
+  exact Bool.false_ne_true
+
+/-- the vertices of `linkSkeletonConnected_iff` are the link vertices, not only the endpoints of
+skeleton edges: two 0-dimensional link simplices have no edge and are not joined -/
+theorem linkSkeletonConnected_two_points : linkSkeletonConnected [[5], [6]] = false := by decide
+theorem linkSkeletonConnected_one_point : linkSkeletonConnected [[5]] = true := by decide
+
+/-- a stored vertex `8` in no cell: rejected by `reject_isolated_vertex_links` -/
+def fanIsolated : Cx := { fanClosed with verts := vtxs [0, 1, 2, 3, 8, 9] }
+
+theorem fanIsolated_rejected : vertexLinksOk fanIsolated = false :=
+  reject_isolated_vertex_links fanIsolated (by decide) ⟨8, none, none⟩
+    (show (⟨8, none, none⟩ : Vtx) ∈ vtxs [0, 1, 2, 3, 8, 9] from
+      List.mem_map.2 ⟨8, by decide, rfl⟩)
+    (by decide)
+
+/-- the vertex-link check is what separates guarantee 2 from guarantee 1 (outside completion) in
+`checkL3`, for any complex that fails it -/
+theorem bowTie2_checkL3 (b : Bool) : checkL3 bowTie2 2 b = false :=
+  checkL3_false_of_vertexLinks bowTie2 2 b (Or.inl (Nat.le_refl 2)) bowTie2_rejected
+
+/-- `D = 1`: three vertices on a line, the middle one has 2 neighbours, the ends have 1; a
+branching vertex (three edges at `1`) is rejected -/
+def path3 : Cx :=
+  { D := 1, verts := vtxs [0, 1, 2], cells := [⟨0, [0, 1], none⟩, ⟨1, [1, 2], none⟩] }
+
+def branch3 : Cx :=
+  { D := 1, verts := vtxs [0, 1, 2, 3],
+    cells := [⟨0, [0, 1], none⟩, ⟨1, [1, 2], none⟩, ⟨2, [1, 3], none⟩] }
+
+theorem path3_ok : vertexLinksOk path3 = true := by decide
+theorem branch3_rejected : vertexLinkOk branch3 1 = false := by decide
 
 end DM.C05
